@@ -70,12 +70,12 @@ func runC20(c *Ctx) {
 		// the coordinator answers some requests twice (a retransmission): dubbo-getty hands every message to a
 		// task pool, so the two copies of a reply are processed at the same time
 		var seenReq int64
-		w.coord.Script = func(s *FakeSession, kind string, m message.RpcMessage) Action {
+		w.coord.SetScript(func(s *FakeSession, kind string, m message.RpcMessage) Action {
 			if atomic.AddInt64(&seenReq, 1)%4 == 0 {
 				return Action{Dup: 1}
 			}
 			return Action{}
-		}
+		})
 		var wg sync.WaitGroup
 		var txDone, txErr int64
 		stop := make(chan struct{})
@@ -223,7 +223,7 @@ func runC20(c *Ctx) {
 			terminated = false
 		}
 		close(stop)
-		w.coord.Script = nil
+		w.coord.SetScript(nil)
 		w.Eng.ClearFaults()
 		// ---- quiescence and leaks
 		time.Sleep(300 * time.Millisecond)
